@@ -540,3 +540,32 @@ func oC18Tune(ix *Index) []Violation {
 	}
 	return out
 }
+
+// oC08StuckWait: "NumPending ... reaches 0 exactly when its Wait returns" - a batch whose items have all
+// finished (or were rejected) has NumPending 0, so a caller still blocked in its Wait when nothing can
+// run any more contradicts the clause.
+func oC08StuckWait(ix *Index) []Violation {
+	if !ix.R.Rep.Deadlock {
+		return nil
+	}
+	var out []Violation
+	for _, c := range ix.blockedCalls() {
+		if c.Op != "gwait" {
+			continue
+		}
+		g := ix.Groups[c.G]
+		if g == nil {
+			continue
+		}
+		all := true
+		for _, n := range g.Items {
+			if j := ix.Jobs[n]; !(len(j.Exits) > 0 || j.Accepted == 0) {
+				all = false
+			}
+		}
+		if all {
+			out = append(out, v("C08", "wait-blocked-at-zero-pending", "client %d is blocked forever in batch %d Wait although every item has finished or was rejected (NumPending is 0)", c.C, c.G))
+		}
+	}
+	return out
+}
